@@ -164,7 +164,42 @@ def check_fault(case):
     return res
 
 
+def twin_spec(carrier, variant):
+    """two designs that differ only in the VALUES of a 2-D table (same axes, same operating point)."""
+    from .c10 import carrier_comp, VALS, zkey
+    z = zkey(carrier)
+    vals = VALS[z]
+    rows = [[vals[(i + j + variant) % 3] for j in range(3)] for i in range(2)]
+    cc = carrier_comp(carrier, {"vi": [2.5, 6.0], "io": [0.0, 0.2, 0.9], z: rows}, 1)
+    return dict(name="twin-%s-%d" % (carrier, variant), phases=None, comps=[
+        dict(n="S", k="Source", a=dict(vo=5.0, rs=0.0), p=[], g="", r=""),
+        dict(n="X", k=cc["k"], a=cc["a"], p=["S"], g="", r=""),
+        dict(n="L", k="ILoad", a=dict(ii=0.5), p=["X"], g="", r="")])
+
+
+def check_cross(case):
+    """analyses of ONE system must not change the results of ANOTHER system living in the same process."""
+    res = Res()
+    sa, sb = twin_spec(case["carrier"], 0), twin_spec(case["carrier"], case["variant"])
+    A, B = build(sa), build(sb)
+    ra = run_analysis(A, sa, case["a"], mkargs())
+    rb = run_analysis(B, sb, case["b"], mkargs())
+    ra2 = run_analysis(A, sa, case["a"], mkargs())
+    res.stats["transitions"] += 3
+    fresh_b = run_analysis(build(sb), sb, case["b"], mkargs())
+    fresh_a = run_analysis(build(sa), sa, case["a"], mkargs())
+    if rb != fresh_b:
+        res.v(("C17.other-system-influences", case["carrier"], case["a"] + ">" + case["b"]), "%s on system B after %s on system A differs from B alone" % (case["b"], case["a"]))
+    if ra2 != fresh_a or ra != fresh_a:
+        res.v(("C17.other-system-influences", case["carrier"], "A-after-B"), "%s on system A changed after %s on system B" % (case["a"], case["b"]))
+    res.nontrivial = 1
+    res.classes.add("cross-system")
+    return res
+
+
 def check_case(case):
+    if case["fam"] == "cross":
+        return check_cross(case)
     return check_seq(case) if case["fam"] == "seq" else check_fault(case)
 
 
@@ -181,6 +216,10 @@ def gen_cases(tier):
             for t in itertools.product(ANALYSES, repeat=3):
                 if len(set(t)) == 3:
                     yield dict(fam="seq", sys=sysn, pal=pal, seq=list(t))
+    for carrier in ("vloss-vdrop", "pswitch-ig", "conv-eff", "linreg-ig", "rect-vdrop"):
+        for variant in (1, 2):
+            for a, b in itertools.product(("solve", "plot_interp", "make_hdiag", "batt_life", "rail_rep"), repeat=2):
+                yield dict(fam="cross", carrier=carrier, variant=variant, a=a, b=b)
     K = 3 if tier == "quick" else 5
     for variant in ("A", "B"):
         for phname in PHASES:
@@ -205,12 +244,12 @@ def main(tier):
         run.map(check_case, gen_cases(tier), chunk=4, family="analyses")
     finally:
         _cw()
-    for c in ("seq2", "pfunc-raises", "dfunc-raises", "dfunc-aborts", "solver-raises", "normal"):
+    for c in ("seq2", "cross-system", "pfunc-raises", "dfunc-raises", "dfunc-aborts", "solver-raises", "normal"):
         run.require(c in run.classes, "class %s never observed" % c)
     return run.finish(
         rule="(a,b) 7 systems (chain, fan-out, two sources, 2-input PMux, phases, a 13-component system with 1-D / 2-D tables of every carrier + rails + groups + limits, a 3-input PMux with rails) x "
              "every single analysis and EVERY ordered pair (thorough: every triple of distinct analyses on 3 systems) of 12 analyses (solve, solve with tags/energy/ta, rail_rep, params, limits, phases, tree, "
              "save, plot_interp, make_diag, make_hdiag, batt_life): after each call K_full, component identities and the argument objects are unchanged and the last result equals its result on a fresh build; "
-             "(c) batt_life fault enumeration: pfunc raising; for every answer sequence of length 0..%d the dfunc raising an Exception / a BaseException (KeyboardInterrupt-like) at the last call (= every k), and a battery state that makes the solver raise, "
+             "(b') pairs of analyses on TWO systems that differ only in the values of a 2-D table (5 carriers): the second system's result equals its result alone; (c) batt_life fault enumeration: pfunc raising; for every answer sequence of length 0..%d the dfunc raising an Exception / a BaseException (KeyboardInterrupt-like) at the last call (= every k), and a battery state that makes the solver raise, "
              "x 3 phase sets x 2 battery placements: params() and K_full identical to an untouched system. non-trivial = pairs/triples and faults after >= 1 successful step." % (3 if tier == "quick" else 5),
         assumptions=["K_full covers every attribute the System methods read", "image back-ends (PNG) not exercised; diagrams rendered as DOT text"])
